@@ -61,6 +61,15 @@ theorem retrypolicy_fixpoint (w : Json) (x : RetryV) (hU : retryU w = some x) :
     ∃ y, retryU (retryM x) = some y ∧ retryM y = retryM x :=
   retry_fixpoint w x hU
 
+/-- **mirror wrappers** (`KeepAlive`, `HealthCheck`, and every pair of the same form): `UnmarshalJSON` decodes the embedded
+generic config and copies members into `json:"-"` fields (`proj`), `MarshalJSON` copies them back (`put`) and encodes;
+since `put (proj c) c = c`, what the pair writes after one load is a fixpoint — for every generic shape, in particular
+the regenerated `KeepAliveConfig` and `HealthCheckConfig` (durations included). -/
+theorem mirror_wrapper_fixpoint {δ : Type} (sh : Shape) (hk : keysOK sh = true) (proj : CVal → δ) (put : δ → CVal → CVal)
+    (hput : ∀ c, put (proj c) c = c) (w : Json) (c : CVal) (h : decode sh w = some c) :
+    ∃ c', decode sh (encode sh (put (proj c) c)) = some c' ∧ encode sh (put (proj c') c') = encode sh (put (proj c) c) :=
+  mirror_fixpoint sh hk proj put hput w c h
+
 /-! ## the hand-written shapes of the custom pairs against the regenerated tables -/
 
 /-- `HostConfig` of the regenerated graph is exactly `hostShape` -/
@@ -80,6 +89,15 @@ example : (G.find "FilterChain").map (fun d => d.fields.map (fun f => (f.name, f
       some [("HostConfig", "", true), ("MetaData", "-", false)] ∧
     (G.find "RetryPolicy").map (fun d => d.fields.map (fun f => (f.name, f.json, f.embedded))) =
       some [("RetryPolicyConfig", "", true), ("RetryTimeout", "-", false)] := by decide +kernel
+
+/-- `KeepAlive` and `HealthCheck` are mirror wrappers of generic configs: embedded config + `json:"-"` durations only -/
+example : (G.find "KeepAlive").map (fun d => d.fields.map (fun f => (f.name, f.json, f.embedded, f.ty))) =
+      some [("KeepAliveConfig", "", true, .named "KeepAliveConfig"), ("Interval", "-", false, .ext "time.Duration"),
+            ("Timeout", "-", false, .ext "time.Duration")] ∧
+    (G.find "HealthCheck").map (fun d => d.fields.map (fun f => (f.name, f.json, f.embedded, f.ty))) =
+      some [("HealthCheckConfig", "", true, .named "HealthCheckConfig"), ("Timeout", "-", false, .ext "time.Duration"),
+            ("Interval", "-", false, .ext "time.Duration"), ("IntervalJitter", "-", false, .ext "time.Duration")] ∧
+    (genericStructs.contains "KeepAliveConfig" && genericStructs.contains "HealthCheckConfig") = true := by decide +kernel
 
 /-! ## non-vacuity -/
 
